@@ -139,6 +139,16 @@ func c08stress(c *Ctx) {
 			if useCtx {
 				e.SetContextKeys("cid", ctxKeyT{"rid"})
 			}
+			// per-level writers that were added and removed again before the load starts (for the severities the load
+			// uses): the class devices apply, and looking a severity up stays a read
+			if r.P(35) {
+				tmp := mon.New(log, fmt.Sprintf("GONE%d", i), mon.ShapePlain)
+				for _, lv := range []slog.Level{slog.InfoLevel, slog.WarnLevel, slog.ErrorLevel, freshLevels[0]} {
+					e.AddLevelWriter(lv, tmp)
+					e.RemoveLevelWriter(lv, tmp)
+				}
+				c.R.Add("loggers_whose_level_writers_were_added_and_removed", 1)
+			}
 			// a timestamp layout of the logger's own (coarse: no sub-second part) that starts with the logger's letter, and
 			// a zone mode: a record shows ITS logger's layout
 			mark := ""
